@@ -352,7 +352,9 @@ struct Endpoint
   virtual ~Endpoint() {}
   virtual const char *name() const = 0;        // "server" / "client"
   virtual bool inboundMasked() const = 0;      // frames sent TO this endpoint carry a mask
-  virtual void open() = 0;                     // fresh upgraded session, capture reset
+  virtual void open() = 0;                     // fresh upgraded session through the real handshake path, capture reset
+  virtual void openFast() = 0;                 // same resulting state, written directly (hot loops; checked against open() at start-up)
+  virtual Bytes pendingHead() = 0;             // first <=14 unparsed bytes the endpoint is holding (to name what it is waiting for)
   virtual void feed(const uint8_t *p, size_t n) = 0;
   virtual size_t retained() = 0;               // bytes the endpoint keeps for the session right now
   virtual void app(char op) = 0;               // T sendText  B sendBinary  P sendPing  C sendClose
@@ -408,6 +410,7 @@ struct ServerEp : Endpoint
     req.headers["Connection"] = "Upgrade";
     req.headers["Sec-WebSocket-Key"] = kKey;
     req.headers["Sec-WebSocket-Version"] = "13";
+    checkFastEqualsReal();
   }
   void destroy()
   {
@@ -429,6 +432,35 @@ struct ServerEp : Endpoint
       fprintf(stderr, "C18 harness: server upgrade hook refused the handshake (status %d)\n", res.status);
       abort();
     }
+  }
+  void openFast() override
+  {
+    sid = ++next;
+    cap().reset(sid);
+    srv->_upgradedSessions.insert(sid); // == markSessionUpgraded(sid)
+    srv->_sessions[sid];                // == _sessions[sid] = WsSessionState{} with an empty negotiated protocol
+  }
+  // start-up self-check: the state openFast() writes is what the real upgrade hook leaves behind
+  void checkFastEqualsReal()
+  {
+    open();
+    auto &st = srv->_sessions.at(sid);
+    bool ok = st.buffer.empty() && st.fragmentBuffer.empty() && st.fragmentOpcode == WsOpcode::CONTINUATION && st.negotiatedProtocol.empty() && !st.closeSent &&
+              srv->_upgradedSessions.count(sid) == 1 && cap().wire.empty();
+    closeCase();
+    if (!ok)
+    {
+      fprintf(stderr, "C18 harness: onUpgradeRequest leaves a session state the fast path does not reproduce\n");
+      abort();
+    }
+  }
+  Bytes pendingHead() override
+  {
+    auto it = srv->_sessions.find(sid);
+    if (it == srv->_sessions.end())
+      return Bytes();
+    auto &b = it->second.buffer;
+    return Bytes(b.begin(), b.begin() + std::min<size_t>(b.size(), 14));
   }
   void feed(const uint8_t *p, size_t n) override { srv->onUpgradedData(sid, p, n); }
   size_t retained() override
@@ -487,6 +519,7 @@ struct ClientEp : Endpoint
     resp101 = std::string("HTTP/1.1 101 Switching Protocols\r\nUpgrade: websocket\r\nConnection: Upgrade\r\n"
                           "Sec-WebSocket-Accept: ") +
               kAccept + "\r\n\r\n";
+    checkFastEqualsReal();
   }
   void destroy()
   {
@@ -495,7 +528,22 @@ struct ClientEp : Endpoint
   }
   const char *name() const override { return "client"; }
   bool inboundMasked() const override { return false; }
-  void open() override
+  void open() override { openImpl(false); }
+  void openFast() override { openImpl(true); }
+  Bytes pendingHead() override { return Bytes(c->_buffer.begin(), c->_buffer.begin() + std::min<size_t>(c->_buffer.size(), 14)); }
+  void checkFastEqualsReal()
+  {
+    open();
+    bool ok = c->_upgradeComplete.load() && c->getState() == WebSocketState::CONNECTED && c->_buffer.empty() && c->_fragmentBuffer.empty() &&
+              c->_fragmentOpcode == WsOpcode::CONTINUATION && !c->_closeEchoed.load() && c->negotiatedProtocol().empty() && cap().wire.empty();
+    closeCase();
+    if (!ok)
+    {
+      fprintf(stderr, "C18 harness: the 101 response leaves a client state the fast path does not reproduce\n");
+      abort();
+    }
+  }
+  void openImpl(bool fast)
   {
     cap().reset(kSid);
     c = WebSocketClient::create();
@@ -511,7 +559,12 @@ struct ClientEp : Endpoint
     c->_sessionId = kSid;
     c->_wsKey = kKey;
     c->_state.store(WebSocketState::CONNECTING);
-    if (feedUpgrade)
+    if (feedUpgrade && fast)
+    {
+      c->_upgradeComplete.store(true); // what handleData() does on a good 101
+      c->_state.store(WebSocketState::CONNECTED);
+    }
+    else if (feedUpgrade)
     {
       c->handleData(kSid, (const uint8_t *)resp101.data(), resp101.size());
       if (c->getState() != WebSocketState::CONNECTED)
